@@ -13,6 +13,11 @@
 EXTENDS ManifTrace
 
 AG(ev) == FMulInt(WPOf(ev), 4096)
+\* unit scale on every entry of the homogeneous matrix that can vary (rotation block and the support of the
+\* generators): averages of O(1) clouds are compared at the scale of the cloud, not of an entry that happens to be ~0
+VarOnes(g) == [r \in 1..MatN(g) |-> [c \in 1..MatN(g) |->
+   IF \E i \in 1..DoF(g) : \E e \in GenEntries(g, i) : e[1] = r /\ e[2] = c THEN O ELSE Z]]
+AbsV(g, A) == MAdd(AbsR(g, A), VarOnes(g))
 BADR == 2000000000
 Close(ev, g, X, Y, S) == MRatioMilli(X, Y, TolMat(S, AG(ev), Z, FloorOf(ev)))
 WitnessOK(ev, g, Rel, S, tau) ==
@@ -83,9 +88,9 @@ AvgItems(ev) ==
           \o (IF ev.routine # "average" /\ n >= 2
               THEN << Item("stationary", IF witOK THEN VRatio(mean, [i \in 1..Len(mean) |-> Z], [i \in 1..Len(mean) |-> FMulInt(SqrtEps(ev), 2)]) ELSE BADR) >>
               ELSE << >>)
-          \o (IF ev.routine # "average" THEN << Item("order", loose(M(g, DV(ev.mperm)), Mm, AbsR(g, Mm))) >> ELSE << >>)
-          \o << Item("left", loose(M(g, DV(ev.mleft)), MMul(Lm, Mm), MMul(AbsR(g, Lm), AbsR(g, Mm)))) >>
-          \o (IF ev.routine # "average" THEN << Item("right", loose(M(g, DV(ev.mright)), MMul(Mm, Rg), MMul(AbsR(g, Mm), AbsR(g, Rg)))) >> ELSE << >>)
+          \o (IF ev.routine # "average" THEN << Item("order", loose(M(g, DV(ev.mperm)), Mm, AbsV(g, Mm))) >> ELSE << >>)
+          \o << Item("left", loose(M(g, DV(ev.mleft)), MMul(Lm, Mm), MMul(AbsR(g, Lm), AbsV(g, Mm)))) >>
+          \o (IF ev.routine # "average" THEN << Item("right", loose(M(g, DV(ev.mright)), MMul(Mm, Rg), MMul(AbsV(g, Mm), AbsR(g, Rg)))) >> ELSE << >>)
 
 -----------------------------------------------------------------------------
 (* C18 *)
